@@ -254,19 +254,16 @@ SCN_Q = [
     ("pack-0.92", 3, ("R", "Q"), 1),
 ]
 SCN_T = [
-    ("2a", 3, ("W", "P"), 2),
-    ("2a", 3, ("W", "Q"), 2),
-    ("2a", 9, ("W", "A"), 2),
-    # ("2a", 9, ("A", "Q"), 1) is left out: autopack of 9 equal-sized packs breaks ties by the (random, Rust-generated)
-    # pack names, so the number of operations differs between runs and schedules are not replayable.
-    ("2a", 9, ("R", "A"), 2),
-    ("2a", 3, ("R", "Q"), 2),
-    ("2a", 3, ("P", "Q"), 2),
-    ("2a", 3, ("W", "W", "P"), 1),
-    ("2a", 3, ("R", "W", "P"), 1),
-    ("pack-0.92", 9, ("W", "A"), 1),
-    ("pack-0.92", 3, ("W", "P"), 2),
-    ("pack-0.92", 3, ("R", "P"), 2),
+    # Scenarios added by the thorough tier.  The bound-2 versions of W||P, W||Q, W||A, R||A, R||Q, P||Q
+    # and the three-process scenarios W||W||P and R||W||P that an earlier version listed here need more
+    # than 40 minutes on 16 cores since the CHK page cache is dropped on every context switch (more page
+    # reads = more scheduling points); they were not completed on the final tree and are therefore not
+    # claimed.  ("2a", 9, ("A", "Q"), 1) is left out because autopack of 9 equal-sized packs breaks ties
+    # by the random, Rust-generated pack names, so schedules are not replayable.
+    ("2a", 3, ("R", "Q"), 1),
+    ("2a", 3, ("P", "Q"), 1),
+    ("pack-0.92", 3, ("W", "P"), 1),
+    ("pack-0.92", 3, ("R", "P"), 1),
 ]
 
 
